@@ -261,7 +261,8 @@ Qed.
 (* strip_dash / split_eq, as redactArgs computes them on a flag's text *)
 Lemma split_flag_text two name value : good_name name ->
   match flag_text two name value with
-  | a0 :: c :: rest => a0 = 45 /\ split_eq (strip_dash (c :: rest)) = (name, value)
+  | a0 :: c :: rest => a0 = 45 /\ ((c =? 45) && is_nil rest = false) /\
+                       split_eq (strip_dash (c :: rest)) = (name, value)
   | _ => False
   end.
 Proof.
@@ -275,8 +276,10 @@ Proof.
       rewrite skipn_app_exact. reflexivity.
     - rewrite app_nil_r, NE. reflexivity. }
   destruct two; unfold flag_text, dashes; cbn [app].
-  - split; [reflexivity|]. cbn [strip_dash]. rewrite N.eqb_refl. exact S.
-  - split; [reflexivity|]. cbn [strip_dash]. destruct (N.eqb_spec n0 45) as [E|_]; [contradiction|]. exact S.
+  - split; [reflexivity|]. split; [rewrite N.eqb_refl; reflexivity|].
+    cbn [strip_dash]. rewrite N.eqb_refl. exact S.
+  - split; [reflexivity|]. destruct (N.eqb_spec n0 45) as [E|_]; [contradiction|].
+    split; [reflexivity|]. cbn [strip_dash]. destruct (N.eqb_spec n0 45) as [E|_]; [contradiction|]. exact S.
 Qed.
 
 Lemma drop_value_flag_text two name v :
@@ -292,40 +295,34 @@ Lemma drop_value_replace two name v v' :
   drop_value (flag_text two name (Some v)) v ++ v' = flag_text two name (Some v').
 Proof. rewrite drop_value_flag_text. unfold flag_text. rewrite <- !app_assoc. reflexivity. Qed.
 
-(* redactArgs on the text of a flag, from the neutral state *)
-Definition redact_flag_spec (a name : str) (value : option str) : (bool * bool) * str :=
-  if is_proxy_name name then
-    match value with
-    | Some v => ((false, false), drop_value a v ++ s_redacted)
-    | None => ((true, false), a)
-    end
-  else if is_define_name name then
-    match value with
-    | None => ((false, true), a)
-    | Some v => ((false, false), if contains s_proxy v then drop_value a v ++ s_redacted else a)
-    end
-  else ((false, false), a).
-
-Lemma redact_one_flag_text two name value : good_name name ->
-  redact_one (false, false) (flag_text two name value) =
-  redact_flag_spec (flag_text two name value) name value.
+(* one step of redactArgs' loop on the text of a flag *)
+Lemma walk_flag_text two name value rest : good_name name ->
+  redact_walk (flag_text two name value :: rest) =
+  match value with
+  | Some v => redact_value name (flag_text two name value) v true :: redact_walk rest
+  | None =>
+      if negb (takes_value name) then flag_text two name value :: redact_walk rest
+      else match rest with
+           | [] => [flag_text two name value]
+           | v :: rest' => flag_text two name value :: redact_value name (flag_text two name value) v false
+                           :: redact_walk rest'
+           end
+  end.
 Proof.
   intros G. pose proof (split_flag_text two name value G) as H.
-  unfold redact_one, redact_flag_spec, is_proxy_name, is_define_name.
-  destruct (flag_text two name value) as [|a0 [|c rest]]; try contradiction.
-  destruct H as [-> S]. rewrite N.eqb_refl. cbn [negb]. rewrite S. reflexivity.
+  cbn [redact_walk].
+  destruct (flag_text two name value) as [|a0 [|c r]]; try contradiction.
+  destruct H as [-> [T S]]. rewrite N.eqb_refl. cbn [negb]. rewrite T, S. reflexivity.
 Qed.
 
-Lemma redact_trigger_neutral v : redact_trigger v = false ->
-  fst (redact_one (false, false) v) = (false, false).
+Lemma takes_value_false_not_trigger n : takes_value n = false ->
+  str_eqb n s_proxy || str_eqb n s_x = false /\ str_eqb n s_define = false.
 Proof.
-  unfold redact_trigger, redact_one, is_trigger_name, is_proxy_name, is_define_name.
-  destruct v as [|v0 [|c rest]]; try reflexivity.
-  destruct (negb (v0 =? 45)); [reflexivity|].
-  destruct (split_eq (strip_dash (c :: rest))) as [name [val|]].
-  - intros _. destruct (str_eqb name s_proxy || str_eqb name s_x); [reflexivity|].
-    destruct (str_eqb name s_define); reflexivity.
-  - intros H. apply orb_false_iff in H. destruct H as [H1 H2]. rewrite H1, H2. reflexivity.
+  intros H. split.
+  - apply orb_false_iff. split.
+    + destruct (str_eqb n s_proxy) eqn:E; [|reflexivity]. apply str_eqb_eq in E. subst n. vm_compute in H. discriminate.
+    + destruct (str_eqb n s_x) eqn:E; [|reflexivity]. apply str_eqb_eq in E. subst n. vm_compute in H. discriminate.
+  - destruct (str_eqb n s_define) eqn:E; [|reflexivity]. apply str_eqb_eq in E. subst n. vm_compute in H. discriminate.
 Qed.
 
 (* ----------------------------------------------------------------- the lexer behind define *)
@@ -414,118 +411,110 @@ Proof.
   - split; reflexivity.
 Qed.
 
-Lemma redact_blank_eq fl : flagset_ok fl -> forall n args, (length args <= n)%nat ->
-  shadow_free fl args = true ->
-  redact_from (false, false) args = redact_from (false, false) (blank fl args).
+Lemma redact_value_blank name arg arg' v hv :
+  (hv = true -> drop_value arg v = drop_value arg' (blank_value name v) /\
+                (blank_value name v = v -> arg' = arg)) ->
+  redact_value name arg v hv = redact_value name arg' (blank_value name v) hv.
 Proof.
-  intros OK. induction n as [|n IH]; intros args Hn SF.
+  intros H. unfold redact_value.
+  change (str_eqb name s_proxy || str_eqb name s_x) with (is_proxy_name name).
+  change (str_eqb name s_define) with (is_define_name name).
+  destruct (is_proxy_name name) eqn:P.
+  - destruct hv; [|reflexivity]. destruct (H eq_refl) as [-> _]. reflexivity.
+  - destruct (is_define_name name) eqn:D.
+    + destruct (blank_value_redacted_define name v P D) as [B1 B2].
+      destruct (contains s_proxy v) eqn:Cv.
+      * destruct (contains s_proxy (blank_value name v)); [|discriminate].
+        destruct hv; [|reflexivity]. destruct (H eq_refl) as [-> _]. reflexivity.
+      * rewrite (B2 eq_refl), Cv. destruct hv; [|reflexivity].
+        destruct (H eq_refl) as [_ E]. rewrite (E (B2 eq_refl)). reflexivity.
+    + assert (E : blank_value name v = v) by (unfold blank_value; rewrite P, D; reflexivity).
+      rewrite E. destruct hv; [|reflexivity]. destruct (H eq_refl) as [_ E']. rewrite (E' E). reflexivity.
+Qed.
+
+Lemma redact_blank_eq fl : agrees fl -> forall n args, (length args <= n)%nat ->
+  redact_walk args = redact_walk (blank fl args).
+Proof.
+  intros OK. induction n as [|n IH]; intros args Hn.
   { destruct args; [reflexivity|cbn in Hn; lia]. }
   destruct args as [|a rest]; [reflexivity|].
-  cbn [blank]. cbn [shadow_free] in SF.
+  cbn [blank].
   destruct (classify a) as [| | |name value] eqn:C; try reflexivity.
   destruct (classify_inv _ _ _ C) as [two [Ea G]].
   destruct (fl name) as [[|]|] eqn:F; [| |reflexivity].
-  - (* bool flag: never a trigger name *)
-    assert (T : is_trigger_name name = false).
-    { destruct (is_trigger_name name) eqn:T; [|reflexivity]. exfalso. apply (OK name T). exact F. }
-    cbn [redact_from]. subst a. rewrite (redact_one_flag_text two name value G).
-    unfold redact_flag_spec. unfold is_trigger_name in T. apply orb_false_iff in T. destruct T as [T1 T2].
-    rewrite T1, T2. f_equal. apply IH; [cbn in Hn; lia|exact SF].
-  - destruct value as [v|].
+  - (* bool flag *)
+    pose proof (OK name FBool F) as TV. cbn in TV.
+    subst a. rewrite !(walk_flag_text two name value _ G).
+    destruct value as [v|].
+    + f_equal. apply IH. cbn in Hn. lia.
+    + rewrite TV. cbn [negb]. f_equal. apply IH. cbn in Hn. lia.
+  - pose proof (OK name FValue F) as TV. cbn in TV.
+    destruct value as [v|].
     + (* -name=value *)
-      subst a. rewrite drop_value_replace.
-      cbn [redact_from]. rewrite !(redact_one_flag_text two name _ G).
-      unfold redact_flag_spec. rewrite !drop_value_flag_text.
-      destruct (is_proxy_name name) eqn:P.
-      * f_equal. apply IH; [cbn in Hn; lia|exact SF].
-      * destruct (is_define_name name) eqn:D.
-        -- destruct (blank_value_redacted_define name v P D) as [B1 B2].
-           destruct (contains s_proxy v) eqn:Cv.
-           ++ destruct (contains s_proxy (blank_value name v)); [|discriminate].
-              f_equal. apply IH; [cbn in Hn; lia|exact SF].
-           ++ rewrite (B2 eq_refl), Cv. f_equal. apply IH; [cbn in Hn; lia|exact SF].
-        -- unfold blank_value. rewrite P, D. f_equal. apply IH; [cbn in Hn; lia|exact SF].
+      subst a. rewrite drop_value_replace, !(walk_flag_text two name _ _ G).
+      f_equal; [|apply IH; cbn in Hn; lia].
+      apply redact_value_blank. intros _. rewrite !drop_value_flag_text. split; [reflexivity|].
+      intros E. rewrite E. reflexivity.
     + (* -name value *)
       destruct rest as [|v rest']; [reflexivity|].
-      apply andb_true_iff in SF. destruct SF as [SF1 SF2].
-      cbn [redact_from]. subst a. rewrite (redact_one_flag_text two name None G).
-      unfold redact_flag_spec.
-      destruct (is_proxy_name name) eqn:P.
-      * cbn [redact_one]. f_equal. f_equal. apply IH; [cbn in Hn; lia|exact SF2].
-      * destruct (is_define_name name) eqn:D.
-        -- cbn [redact_one]. destruct (blank_value_redacted_define name v P D) as [B1 B2].
-           f_equal. destruct (contains s_proxy v) eqn:Cv.
-           ++ destruct (contains s_proxy (blank_value name v)); [|discriminate].
-              f_equal. apply IH; [cbn in Hn; lia|exact SF2].
-           ++ rewrite (B2 eq_refl), Cv. f_equal. apply IH; [cbn in Hn; lia|exact SF2].
-        -- unfold blank_value. rewrite P, D. f_equal.
-           unfold is_trigger_name in SF1. rewrite P, D in SF1. cbn in SF1. apply negb_true_iff in SF1.
-           pose proof (redact_trigger_neutral v SF1) as N.
-           destruct (redact_one (false, false) v) as [st o]. cbn in N. subst st. f_equal.
-           apply IH; [cbn in Hn; lia|exact SF2].
+      subst a. rewrite !(walk_flag_text two name None _ G), TV. cbn [negb].
+      f_equal. f_equal; [|apply IH; cbn in Hn; lia].
+      apply redact_value_blank. discriminate.
 Qed.
 
 (* The echo of a command line equals the echo of the same command line with every proxy value
-   blanked, provided no other option's value looks like a -proxy / -x / -define flag. *)
-Theorem echo_of_blank fl prog args : flagset_ok fl -> redact_trigger prog = false ->
-  shadow_free fl args = true ->
+   blanked -- for every command line, whatever argv[0]. *)
+Theorem echo_of_blank fl prog args : agrees fl ->
   redact_args (prog :: args) = redact_args (prog :: blank fl args).
 Proof.
-  intros OK Hp SF. unfold redact_args. cbn [redact_from].
-  pose proof (redact_trigger_neutral prog Hp) as N.
-  destruct (redact_one (false, false) prog) as [st o]. cbn in N. subst st. f_equal.
-  apply (redact_blank_eq fl OK (length args)); [lia|exact SF].
+  intros OK. unfold redact_args. f_equal. apply (redact_blank_eq fl OK (length args)). lia.
 Qed.
 
-Theorem argv_noninterference_partial fl prog a1 a2 : flagset_ok fl -> redact_trigger prog = false ->
-  shadow_free fl a1 = true -> shadow_free fl a2 = true ->
+Theorem argv_noninterference fl prog a1 a2 : agrees fl ->
   blank fl a1 = blank fl a2 ->
   redact_args (prog :: a1) = redact_args (prog :: a2).
 Proof.
-  intros OK Hp S1 S2 E. rewrite (echo_of_blank fl prog a1 OK Hp S1), (echo_of_blank fl prog a2 OK Hp S2), E.
-  reflexivity.
+  intros OK E. rewrite (echo_of_blank fl prog a1 OK), (echo_of_blank fl prog a2 OK), E. reflexivity.
 Qed.
 
-Lemma lookup_flag_ok tbl :
-  forallb (fun kv => match snd kv with FBool => negb (is_trigger_name (fst kv)) | FValue => true end) tbl = true ->
-  flagset_ok (lookup_flag tbl).
+Lemma new_flags_agree : agrees new_flags.
 Proof.
-  intros H n T. induction tbl as [|[k v] tbl IH]; cbn; [discriminate|].
-  cbn in H. apply andb_true_iff in H. destruct H as [H1 H2].
-  destruct (str_eqb n k) eqn:E; [|apply IH; exact H2].
-  apply str_eqb_eq in E. subst k. destruct v; [|discriminate]. rewrite T in H1. discriminate.
+  intros n k H. unfold takes_value. unfold new_flags in H. rewrite H. destruct k; reflexivity.
 Qed.
 
-Lemma new_flags_ok : flagset_ok new_flags.
-Proof. apply lookup_flag_ok. vm_compute. reflexivity. Qed.
-
-Lemma legacy_flags_ok : flagset_ok legacy_flags.
-Proof. apply lookup_flag_ok. vm_compute. reflexivity. Qed.
-
-(* The unguarded statement is false: a value-taking option whose value is itself "-x" (or --proxy,
-   -define ...) desynchronises redactArgs from the flag parser. *)
-Definition shadow_args (secret : str) : list str :=
-  [b "--pidfile"%string; b "-x"%string; b "--proxy"%string; secret].
-
-Theorem argv_noninterference_refuted :
-  exists prog a1 a2, redact_trigger prog = false /\
-    blank new_flags a1 = blank new_flags a2 /\
-    parse_proxy new_flags [] a1 = Some (b "http://u:SECRET1@h:1"%string) /\
-    redact_args (prog :: a1) <> redact_args (prog :: a2) /\
-    echo_monitor (b "SECRET1"%string) (redact_args (prog :: a1)) = false.
+Lemma lookup_flag_in tbl n k : lookup_flag tbl n = Some k -> In (n, k) tbl.
 Proof.
-  exists (b "/usr/bin/newrelic-daemon"%string), (shadow_args (b "http://u:SECRET1@h:1"%string)),
-         (shadow_args (b "http://u:SECRET2@h:1"%string)).
-  split; [reflexivity|]. split; [reflexivity|]. split; [reflexivity|]. split; [|reflexivity].
-  vm_compute. discriminate.
+  induction tbl as [|[n' k'] tbl IH]; cbn; [discriminate|].
+  destruct (str_eqb n n') eqn:E.
+  - intros H. inversion H. subst k'. apply str_eqb_eq in E. subst n'. left. reflexivity.
+  - intros H. right. apply IH. exact H.
 Qed.
 
-(* the second shape of the same defect: a -define swallowed as a value *)
-Example shadow_define_leaks :
-  let args := [b "--pidfile"%string; b "--define"%string; b "--define"%string; b "proxy=http://u:SECRET1@h:1"%string] in
-  parse_proxy new_flags [] args = Some (b "http://u:SECRET1@h:1"%string) /\
-  echo_monitor (b "SECRET1"%string) (redact_args (b "prog"%string :: args)) = false.
-Proof. split; reflexivity. Qed.
+(* no option is boolean in one of the daemon's flag sets and value-taking in the other, and takesValue
+   (new set first, then legacy) answers like the legacy set on every legacy option *)
+Lemma legacy_flags_agree : agrees legacy_flags.
+Proof.
+  assert (T : forallb (fun nk => Bool.eqb (takes_value (fst nk)) (match snd nk with FValue => true | FBool => false end))
+                      legacy_flag_table = true) by (vm_compute; reflexivity).
+  intros n k H. apply lookup_flag_in in H. rewrite forallb_forall in T. specialize (T (n, k) H).
+  cbn in T. apply eqb_prop in T. exact T.
+Qed.
+
+(* the four command lines that the earlier redactArgs (before 3800b33) leaked on: the value of another
+   option reads like -x / --proxy / -define *)
+Definition shadow_corpus (secret : str) : list (list str) :=
+  [[b "--pidfile"%string; b "-x"%string; b "--proxy"%string; secret];
+   [b "--logfile"%string; b "--proxy"%string; b "--proxy"%string; secret];
+   [b "--auditlog"%string; b "--define"%string; b "--define"%string; b "proxy="%string ++ secret];
+   [b "-l"%string; b "-x"%string; b "-x"%string; secret]].
+
+Example shadow_corpus_redacted :
+  let secret := b "http://u:SECRET1@h:1"%string in
+  forallb (fun a => echo_monitor (b "SECRET1"%string) (redact_args (b "/usr/bin/newrelic-daemon"%string :: a)))
+          (shadow_corpus secret) = true /\
+  map (parse_proxy new_flags []) (firstn 3 (shadow_corpus secret)) = [Some secret; Some secret; Some secret] /\
+  parse_proxy legacy_flags [] (nth 3 (shadow_corpus secret) []) = Some secret.
+Proof. vm_compute. repeat split; reflexivity. Qed.
 
 Lemma blank_eq_form fl two name v rest : good_name name -> fl name = Some FValue ->
   blank fl (flag_text two name (Some v) :: rest) =
@@ -613,7 +602,7 @@ Proof. vm_compute. reflexivity. Qed.
 Example ex_noninterference_hyps :
   let a1 := map b ["--foreground"; "--loglevel"; "debug"; "--proxy=http://u:S1@h:1"; "--define"; "proxy = http://u:S1@h"]%string in
   let a2 := map b ["--foreground"; "--loglevel"; "debug"; "--proxy=http://u:S2@h:1"; "--define"; "proxy=other"]%string in
-  shadow_free new_flags a1 = true /\ shadow_free new_flags a2 = true /\ a1 <> a2 /\
+  a1 <> a2 /\
   blank new_flags a1 = blank new_flags a2 /\
   parse_proxy new_flags [] a1 = Some (b "http://u:S1@h"%string).
 Proof. cbn. repeat split; try reflexivity. discriminate. Qed.
@@ -623,12 +612,3 @@ Example ex_key_hyps :
   let k2 := b "01ABCDEFGHIJKLMNOPQRSTUVWXYZabcdefghijkl89"%string in
   length k1 = 40%nat /\ (6 < length k1)%nat /\ k1 <> skipn 2 k2 /\ firstn 2 k1 = firstn 2 k2.
 Proof. cbn. repeat split; try lia. discriminate. Qed.
-
-(* the unguarded statement, negated *)
-Theorem argv_noninterference_unguarded_false :
-  ~ (forall prog a1 a2, redact_trigger prog = false -> blank new_flags a1 = blank new_flags a2 ->
-       redact_args (prog :: a1) = redact_args (prog :: a2)).
-Proof.
-  intros H. destruct argv_noninterference_refuted as [prog [a1 [a2 [Hp [Hb [_ [Hne _]]]]]]].
-  apply Hne. apply H; assumption.
-Qed.
